@@ -1866,6 +1866,11 @@ class Piece:
             where, snippet, occ, text = anchor[:4]
             # ("opt:KIND", ..): a proof step that belongs to one statement; when the statement is gone the step is left out (what the
             # function must achieve is stated in its contract, which is checked either way)
+            # ("hint:KIND", ..): a proof *hint* that belongs to one statement: when the statement is gone the hint is left out too, and a failure in
+            # the function is then not a verdict (the proof may only be missing its hint)
+            hint_ = where.startswith("hint:")
+            if hint_:
+                where = "opt:" + where[5:]
             optional_ = where.startswith("opt:")
             where = where[4:] if optional_ else where
             for ph_, repl_, _x in counted_sub.values():
@@ -1961,6 +1966,9 @@ class Piece:
                 ms_ = list(re.finditer(snippet, ftext, re.S))
                 if len(ms_) < occ:
                     if optional_:
+                        if hint_:
+                            self.unit.rebound.add(fn.name)
+                            self.unit.rewired.add(fn.name)
                         continue
                     raise Undecided(f"{fn.name}: anchor /{snippet}/ #{occ} not found")
                 m_ = ms_[occ - 1]
@@ -1976,6 +1984,9 @@ class Piece:
                         break
                 if pos < 0:
                     if optional_:
+                        if hint_:
+                            self.unit.rebound.add(fn.name)
+                            self.unit.rewired.add(fn.name)
                         continue
                     raise Undecided(f"{fn.name}: anchor `{snippet}` #{occ} not found")
             if where in ("before", "after"):
